@@ -207,6 +207,9 @@ class WorkExceeded(Exception):
     pass
 
 
+LOOPED = set()        # names of the functions whose loops were entered under the iteration-counting interpreter (the adversarial scenarios)
+
+
 class BoundedInterp(Interp):
     """loops over huge constant ranges are entered lazily and counted"""
     def __init__(self, prog, limit):
@@ -234,6 +237,7 @@ class BoundedInterp(Interp):
             raise Fail(f'for over {it!r} line {st.lineno}')
         n = 0
         broke = False
+        LOOPED.add(self.cur[-1].name if self.cur else '?')
         for x in items:
             n += 1
             self.iterations += 1
@@ -254,6 +258,7 @@ class BoundedInterp(Interp):
 
     def st_While(self, st, fr):
         n = 0
+        LOOPED.add(self.cur[-1].name if self.cur else '?')
         while True:
             c = self.ev(st.test, fr)
             if not self.truth(c, st):
@@ -651,6 +656,9 @@ def check(run):
     for f, n in loops:
         q = f'{f.cls.name + "." if f.cls else ""}{f.name}'
         run.ok('D2s', f'{q}:{type(n).__name__}:{ast.unparse(n.iter if isinstance(n, ast.For) else n.test if isinstance(n, ast.While) else n.generators[0].iter)[:50]}', 'bound derives from input bytes; covered by the adversarial scenarios above')
-    covered = {'deserialize_boc_header', 'deserialize_cell', 'deserialize'}
-    unknown = [f.name for f, _ in loops if f.name not in covered]
-    run.check(not unknown, 'D2s', 'data-bounded loops[coverage]', f'loops with input-derived bounds in functions without an adversarial scenario: {unknown}' if unknown else f'{len(loops)} input-bounded loops, all inside the functions exercised by the scenarios', wb)
+    # covered = the loop was entered while the adversarial scenarios ran (comprehensions count with their function): a statement about the
+    # scenarios of this check, so a loop they do not reach is an analysis error (the check must grow a scenario), not a violation
+    unknown = sorted({f.name for f, _ in loops if f.name not in LOOPED and f.name not in ('deserialize_boc_header', 'deserialize_cell', 'deserialize')})
+    if unknown:
+        raise AnalysisError(f'loops with input-derived bounds in functions the adversarial scenarios do not enter: {unknown}')
+    run.ok('D2s', 'data-bounded loops[coverage]', f'{len(loops)} input-bounded loops, all inside the functions exercised by the scenarios')
